@@ -294,4 +294,28 @@ def run(ck):
                              {"correspondence": "Cli.parse vs clap", "argv": ["az65"] + argv, "model": pred}, no_input=True)
         finally:
             shutil.rmtree(d, ignore_errors=True)
+    # ---- a destination that cannot take the bytes (a full device): the run fails, with a message, whatever the size
+    # of the image and wherever it goes (the kernel's /dev/full accepts the open and fails every write)
+    if os.path.exists("/dev/full"):
+        for arch in asmk.ARCHES:
+            for prog in ("ok", "ok_big", "ok_echo", "ok_prg"):
+                for how in ("stdout", "-o", "--output"):
+                    d = tempfile.mkdtemp(prefix="az65_c15_")
+                    try:
+                        open(os.path.join(d, "main.asm"), "w").write(PROGS[prog][0])
+                        argv = [arch, "main.asm"] + ([] if how == "stdout" else [how, "/dev/full"])
+                        with open("/dev/full", "wb") as full:
+                            p = subprocess.run([az] + argv, cwd=d, stdout=(full if how == "stdout" else subprocess.PIPE),
+                                               stderr=subprocess.PIPE, timeout=60)
+                        ck.evaluations += 1
+                        ck.nontriv("full:%s:%s:%s" % (arch, prog, how))
+                        ck.count("full-device:rc=%s" % p.returncode)
+                        if p.returncode == 0 or not p.stderr.strip() or b"panicked" in p.stderr:
+                            ck.violation("`az65 %s` with %s on a full device: exit status %s, stderr %r -- the image was not written, "
+                                         "the run must fail with a message" % (" ".join(argv), "standard output" if how == "stdout" else how,
+                                                                             p.returncode, p.stderr.decode("utf8", "replace")[:120]),
+                                         {"mode": "cli", "argv": ["az65"] + argv, "stdout": "/dev/full" if how == "stdout" else None,
+                                          "files": {"main.asm": PROGS[prog][0]}, "expected": "non-zero exit and a message"})
+                    finally:
+                        shutil.rmtree(d, ignore_errors=True)
     return ck
